@@ -115,6 +115,7 @@ type Gen struct {
 	registered  map[int]bool // filters
 	epoch       int          // handles issued before the last Reset are foreign to the world
 	queue       []lazyOp     // pending scenario operations
+	hotEvents   []int        // event types most observers of this script use
 	Scenarios   int          // percent chance per operation to start a scenario
 }
 
@@ -739,6 +740,14 @@ func (g *Gen) build(kind string) []int64 {
 		evt := 249 + g.R.Intn(7)
 		if g.R.Chance(10) {
 			evt = g.R.Intn(3)
+		}
+		// concentrate observers on a few event types per script, so that several observers
+		// share one event type (aggregates, early-out, unregister order)
+		if g.hotEvents == nil {
+			g.hotEvents = []int{249 + g.R.Intn(7), 249 + g.R.Intn(7)}
+		}
+		if g.R.Chance(65) {
+			evt = g.hotEvents[g.R.Intn(len(g.hotEvents))]
 		}
 		var for_, with, without []int
 		if g.R.Chance(60) {
